@@ -302,4 +302,11 @@ def rule_raw_rows_dispatch(ctx):
 
 from .common import rule_module_state  # noqa: E402
 
-RULES = [rule_fixed_rows, rule_structure, rule_raw_rows_dispatch, rule_module_state]
+def rule_fixed_files_keep_their_line_ends(ctx):
+    """O13.8: fixed-width data read from a path is opened with newline="" (C12's rule for the fixed reader and the writers)."""
+    from .c12 import rule_newline
+
+    rule_newline(ctx, "O13.8", (("cutplace.rowio.fixed_rows", "r"), ("cutplace.rowio.AbstractRowWriter.__init__", "w")))
+
+
+RULES = [rule_fixed_rows, rule_structure, rule_raw_rows_dispatch, rule_fixed_files_keep_their_line_ends, rule_module_state]
